@@ -201,6 +201,19 @@ def instrument(prop, beh, idx, rng):
         cands = sorted({w + d for w in whens for d in (0, 1)})
         rng.shuffle(cands)
         cuts = sorted(cands[:3] + [rng.choice([103, 110, 120, 305])])
+        if cache > 0 and rng.random() < 0.6:
+            # one handle (with a node cache) vacuums, writes, returns the tree to an earlier content and vacuums again: the
+            # version it then names must be readable by everybody (a node the first vacuum deleted has to be stored again)
+            post += [{"op": "open", "c": "cw", "mode": "rw", "when": 380, "perm": rng.randrange(6)},
+                     {"op": "stmt", "c": "cw", "id": "cw1", "kind": "ins", "key": "i:6301", "cols": {"a": "t:cw1"}, "wt": 381},
+                     {"op": "stmt", "c": "cw", "id": "cw2", "kind": "ins", "key": "i:6302", "cols": {"a": "t:cw2"}, "wt": 382},
+                     {"op": "vacuum", "c": "cw", "cutoff": 2000},
+                     {"op": "stmt", "c": "cw", "id": "cw3", "kind": "del", "key": "i:6302", "wt": 383},
+                     {"op": "vacuum", "c": "cw", "cutoff": 2000}, {"op": "rows", "c": "cw"}]
+            inst.save_version(post, "cw")
+            post += [{"op": "kvdump", "c": fresh(), "only_ref": inst.saved[-1]},
+                     {"op": "changes", "c": "cw", "from": [], "to_ref": inst.saved[-1]},
+                     {"op": "open", "c": fresh(), "mode": "ro", "perm": rng.randrange(6)}]
         post += [{"op": "refresh", "c": "m1", "when": 400}, {"op": "snapshot", "name": "prevac"}]
         for j, cut in enumerate(cuts):
             vc = "vc%d" % j
@@ -460,8 +473,30 @@ def conn_scenarios(workdir, tier, rng):
     notes = ["Conn.tla (s3db_conn attribute machine), every sequence of 5 operations: %d behaviours, %d states, %.0fs; 12 operations -simulate: %d behaviours" % (len(b1), d1, w1, len(b2))]
     rng.shuffle(b1)
     rng.shuffle(b2)
+
+    def interesting(beh):
+        """an attribute operation inside a transaction that also writes, and a read-back after the transaction"""
+        intx = wrote = attr = False
+        closed_with_attr = False
+        for op in beh:
+            o = op["op"]
+            if o == "begin":
+                intx, wrote, attr = True, False, False
+            elif o in ("commit", "rollback"):
+                closed_with_attr = closed_with_attr or (wrote and attr)
+                intx = False
+            elif intx and o == "stmt":
+                wrote = True
+            elif intx and o in ("set_wt", "clear_wt", "set_dl", "clear_dl"):
+                attr = True
+            elif o == "get" and closed_with_attr:
+                return True
+        return False
     if tier == "quick":
-        b1, b2 = b1[:500], b2[:150]
+        hot = [x for x in b1 if interesting(x)]
+        cold = [x for x in b1 if not interesting(x)]
+        b1, b2 = hot[:450] + cold[:250], b2[:150]
+        notes[0] += "; quick tier: %d behaviours with an attribute operation inside a writing transaction and a later read-back (of %d), %d others" % (min(450, len(hot)), len(hot), min(250, len(cold)))
     scen = []
     for i, beh in enumerate(b1 + b2):
         w = "w1"
